@@ -231,7 +231,11 @@ impl<M: ConvexCellMarker> Iterator for ConvexCellDecomposition<'_, M> {
     }
 }
 
-pub(crate) trait ConvexCellMarker: Clone + Send + Sync + Default {}
+/// Marker for the two states of a [`ConvexCell`] ([`WithFaces`] / [`WithoutFaces`]).
+///
+/// It appears as a bound in the signatures of the integral traits, so downstream crates that
+/// implement those traits must be able to name it.
+pub trait ConvexCellMarker: Clone + Send + Sync + Default {}
 
 #[derive(Copy, Clone, Default)]
 pub struct WithoutFaces;
